@@ -140,7 +140,9 @@ Print Assumptions C19_every_single_copy_site_is_framed.
 
 (* ---- FUNCTION BODIES (model/HeapProg.v) ---------------------------------------------------------
    A structured language for the slice-relevant behaviour of a Go function body: registers holding
-   slices (an object register stands for one may-alias class of objects and is never copied), the operations
+   slices (an object register stands for one may-alias class of objects: the classes are computed by the
+   translator, OUTSIDE Coq; Coq only checks that no object register is copied into another register that is then
+   used as an object), the operations
    of model/Heap.v with freely chosen indices/lengths/bytes, opaque callee writes, stores into objects,
    escapes (return / store in a shared object / kept by a callee), call records, two-way branches, loops with
    break/continue, early return; an execution may also stop before any statement (panic).  `own_stmt` is the
@@ -150,7 +152,12 @@ Print Assumptions C19_every_single_copy_site_is_framed.
 (* THE FRAME THEOREM for bodies: a body that passes the analysis from the write flags wf and keep flags kf
    of its parameters - on EVERY execution - changes no caller array except those of the parameters flagged
    in wf, and lets escape only slices living in arrays allocated during the call or in those of the
-   parameters flagged in kf. *)
+   parameters flagged in kf.  "Escape" = what SEscape logs (a value returned by an API function, handed to a
+   keeping callee, or - by the translator - put where the function can no longer follow it).  A STORE into an
+   object changes neither heap nor log in this semantics: for a store into an object that is not private the
+   analysis demands a keepable value, but the conclusion below does not mention stores.  SCOPE: byte memory
+   only ([]byte, [N]byte and what reaches them); *big.Int, interface values without a register, function values
+   and channels are not modelled. *)
 Theorem C19_disciplined_body_frames_the_caller :
   forall h0 regs wf kf prog o h' regs' lg',
     List.length wf = List.length regs -> List.length kf = List.length regs ->
@@ -193,9 +200,9 @@ Print Assumptions C19_undisciplined_bodies_refuted.
 
 (* NEGATIVE EXAMPLES: the pointer-alias probes of the third audit (an object register copied, a store
    through the copy, the original returned or written through) are rejected by the check of a table entry -
-   as they stand (object registers may not be copied) and in the one-register-per-class form the translator
-   emits (the store lowers the class); the Read(p) exemption grants write but not keep; a store into an object
-   after it was handed out lets the stored value escape. *)
+   as they stand and in the one-register-per-class form the translator emits (the store lowers the class);
+   the Read(p) exemption grants write but not keep; a store into an object after it was handed out lets the
+   stored value escape. *)
 Example C19_alias_probes_are_rejected :
   body_checked [1; 2] [false; false; false] [false; false; false]
     (seq [SMake 1; SAlias 2 1; SStore 2 0; SEscape 1; SReturn]) = false /\
@@ -216,17 +223,49 @@ Example C19_alias_probes_are_rejected :
 Proof. exact alias_probes_are_rejected. Qed.
 Print Assumptions C19_alias_probes_are_rejected.
 
+(* ... and the counter-instances of the fourth audit, which the previous version of the check accepted: a
+   self-including SPhi from ANOTHER live object register; an object copied into a plain register that is then
+   stored into; an object stored into somebody else's object and then filled (it is no longer private); a call
+   effect that sits behind a return.  SBind is what the translator emits when a variable is bound to the object
+   of a temporary: the temporary is killed. *)
+Example C19_fourth_audit_counter_instances_are_rejected :
+  body_checked [1; 2] [false; false; false] [false; false; false]
+    (seq [SMake 1; SMake 2; SPhi 2 [2; 1]; SStore 2 0; SEscape 1; SReturn]) = false /\
+  body_checked [1; 2] [false; false; false] [false; false; false]
+    (seq [SMake 1; SMake 2; SPhi 2 [2; 1]; SStore 2 0; SSet 1; SReturn]) = false /\
+  body_checked [1; 2] [false; false; false] [false; false; false]
+    (seq [SMake 1; SMake 2; SBind 2 1; SStore 2 0; SEscape 1; SReturn]) = false /\
+  body_checked [1; 2] [false; false; false] [false; false; false]
+    (seq [SMake 1; SMake 2; SBind 2 1; SStore 2 0; SSet 1; SReturn]) = false /\
+  body_checked [1] [false; false; false; false] [false; false; false; false]
+    (seq [SMake 1; SAlias 3 1; SStore 3 0; SEscape 1; SReturn]) = false /\
+  body_checked [1; 2] [false; false; false] [false; false; false]
+    (seq [SMake 1; SOpaque 2; SStore 2 1; SStore 1 0; SReturn]) = false /\
+  calls_ok (fun _ => ([true], [true])) (SCall 0 [[0]] (seq [SReturn; SWrite 0; SEscape 0])) = false /\
+  body_checked [1; 2] [false; false; false; false] [false; false; false; false]
+    (seq [SMake 1; SMake 2; SBind 2 1; SClone 3 0; SStore 2 3; SEscape 2; SReturn]) = true /\
+  calls_ok (fun _ => ([true], [true])) (SCall 0 [[0]] (seq [SWrite 0; SEscape 0; SReturn])) = true.
+Proof. exact fourth_audit_counter_instances_are_rejected. Qed.
+Print Assumptions C19_fourth_audit_counter_instances_are_rejected.
+
 (* THE TIE, body level.  gen/AliasBodies.v (regenerated from /repo on every run) holds the translated
-   body of every function of the library's non-test packages that takes, keeps or returns byte memory
+   body of every function of the library's scanned packages that takes, keeps or returns byte memory
    - as far as the translator's subset reaches; the others are listed in c19_body_untranslated and are
-   NOT covered.  Checked by computation on the table (every_body_ok): each body passes the analysis from its
-   flags; object registers are never copied; and every CALL RECORD meets the contract (write / keep flags) of
-   the entry it names - so that what a callee inside the library does to its arguments is an obligation over
-   the table, not trust in the translator (what a RESULT may alias, and the table of callees outside the
-   library, remain trusted).  For EVERY entry: every execution frames the caller up to the flagged
-   parameters ... *)
+   NOT covered; neither are the packages the scan skips (generated protobuf code, testutil, testing/*,
+   internal/testing/*, internalapi: c19_packages_skipped_other).  Checked by computation on the table
+   (every_body_ok): each body passes the analysis from its flags; no object register is copied into another
+   register used as an object (the may-alias CLASSES - which variables share a register - are computed by the
+   translator, outside Coq); every CALL RECORD names an entry of the table and meets its contract (write /
+   keep flags) - a syntactic check of the recorded effect, without induction over the call graph; what a
+   RESULT may alias, which argument a callee stores into which, and the table of callees outside the library
+   remain trusted.  For EVERY entry outside the exception list: every execution frames the caller up to the
+   flagged parameters.  A value returned by an INTERNAL helper is not an escape (its callers account for it);
+   stores are covered by the analysis, not by the conclusion (see C19_disciplined_body_frames_the_caller);
+   only byte memory is in scope: *big.Int values (e.g. the key that
+   signature/subtle.NewECDSASignerFromPrivateKey keeps), interface values without a register, function values
+   and channels are invisible. *)
 Theorem C19_every_function_body_frames_the_caller :
-  forall e, In e c19_bodies ->
+  forall e, In e c19_bodies -> excepted e = false ->
   forall h0 regs o h' regs' lg', List.length regs = fb_nregs e ->
     exec (h0, regs, []) (fb_prog e) o (h', regs', lg') ->
     (forall s, wf_slice h0 s -> ~ In (arr s) (writable regs (fb_wflags e)) ->
@@ -239,12 +278,14 @@ Print Assumptions C19_every_function_body_frames_the_caller.
 
 (* ... and an API function (exported function or method of a non-internal package) that is not in the
    explicit exception list c19_body_exceptions has NO flagged parameter: it changes nothing the caller
-   can see, and every byte slice it returns or stores - directly or inside an object the analysis follows:
-   an object built in the function, or an object it was handed whose type is NOT in the whitelist
-   c19_immutable_types - lives in memory allocated during the call.  (An object of a whitelisted type that the
-   function was handed may be kept or returned as a whole: the whitelist is the library struct types with only
-   unexported byte-reaching fields through whose values no entry writes, stores or hands out a view - the
-   "no entry writes" part is re-checked below - plus a few standard-library key types, trusted.) *)
+   can see, and every byte slice that escapes (is returned, or must be keepable because it is stored into an
+   object that is not private to the function or handed to a keeping callee) - directly or inside an object
+   the analysis follows: an object built in the function, or an object it was handed whose type is NOT in the
+   whitelist c19_immutable_types - lives in memory allocated during the call.  (An object of a whitelisted type that the
+   function was handed may be kept or returned as a whole: the whitelist is INFERRED BY THE TRANSLATOR - library
+   struct types with only unexported byte-reaching fields through whose values no translated function writes,
+   stores or hands out a view - plus a few standard-library key types, trusted; only "no entry has a write flag
+   on a parameter of such a type" is re-checked in Coq, below.)  Scope as above: byte memory only. *)
 Theorem C19_every_api_function_body_frames_the_caller :
   forall e, In e c19_bodies -> fb_api e = true -> excepted e = false ->
   forall h0 regs o h' regs' lg', List.length regs = fb_nregs e ->
